@@ -150,6 +150,11 @@ impl<'a> PrettyPrinter<'a> {
                 .unwrap_or(children.len().saturating_sub(1));
             children[i..=j].iter()
         };
+        // The stripped spaces may contain the line break that terminates a trailing line comment.
+        let ends_with_line_comment = children
+            .as_slice()
+            .last()
+            .is_some_and(|child| child.kind() == SyntaxKind::LineComment);
 
         let mut peek_hashed_arg = false;
         let inner = self.convert_flow_like_iter(ctx, children, |ctx, child| {
@@ -181,11 +186,15 @@ impl<'a> PrettyPrinter<'a> {
                 }
             }
         });
-        if self.attr_store.is_multiline(args.to_untyped()) {
-            ((self.arena.line_() + inner).nest(self.config.tab_spaces as isize)
-                + self.arena.line_())
-            .group()
-            .parens()
+        if self.attr_store.is_multiline(args.to_untyped()) || ends_with_line_comment {
+            let closing = if ends_with_line_comment {
+                self.arena.hardline()
+            } else {
+                self.arena.line_()
+            };
+            ((self.arena.line_() + inner).nest(self.config.tab_spaces as isize) + closing)
+                .group()
+                .parens()
         } else {
             inner.parens()
         }
